@@ -51,12 +51,19 @@ type Session struct {
 	Fault      *Injected                          // the injected value (set when the fault fires)
 	Handed     map[interface{}]bool               // tokens the task's scanner handed out in the current operation
 	Render     func(x interface{}) (string, bool) // glue: grammar-specific rendering (tokens, error attributes)
+	SwapAt     int                                // > 0: from this $Context-using call on the stub stores a NEW value in the parser's Context field (through SetCtx)
+	SetCtx     func(c interface{})                // installed by the harness: assigns the parser's Context field
+	NextCtx    func(cur interface{}) interface{}  // the value to store
+	Mutate     func(tok interface{})              // if set: every token argument is modified in place AFTER it was logged
 	Problems   []string                           // invariant violations noticed at call time
 	AfterFault int                                // calls made after the fault fired (must stay 0)
 }
 
 // Begin resets the per-operation state.
 func (s *Session) Begin(faultCall int, faultKind string) {
+	s.SwapAt = 0
+	s.SetCtx = nil
+	s.Mutate = nil
 	s.Log = s.Log[:0:0]
 	s.Calls = 0
 	s.FaultCall = faultCall
@@ -122,6 +129,23 @@ func (s *Session) call(ctx interface{}, withCtx bool, alt int, args []interface{
 	}
 	n.str = Shorten("N" + strconv.Itoa(alt) + c + "(" + strings.Join(parts, ",") + ")")
 	s.Log = append(s.Log, n.str)
+	if withCtx && s.SwapAt > 0 && s.Calls >= s.SwapAt && s.SetCtx != nil && s.NextCtx != nil {
+		// the action replaces the parser's Context: later actions must see the new value
+		s.Ctx = s.NextCtx(s.Ctx)
+		s.SetCtx(s.Ctx)
+	}
+	if s.Mutate != nil {
+		for _, a := range args {
+			if a == nil {
+				continue
+			}
+			if _, isNode := a.(*Node); !isNode {
+				if str, ok := s.Render(a); ok && strings.HasPrefix(str, "T<") {
+					s.Mutate(a)
+				}
+			}
+		}
+	}
 	if s.FaultCall > 0 && s.Calls == s.FaultCall && s.Fault == nil {
 		s.Fault = &Injected{Task: s.TaskID, Call: s.Calls, Tag: fmt.Sprintf("injected-fault-task%d-call%d", s.TaskID, s.Calls)}
 		if s.FaultKind == FaultPanic {
